@@ -127,10 +127,10 @@ type fakePeerManager struct{ comp }
 func (fakePeerManager) GetResponsiblePeers(context.Context) ([]peer.Peer, error) {
 	return []peer.Peer{fakePeer{id: remotePeer}}, nil
 }
-func (fakePeerManager) GetNodePeers(context.Context) ([]peer.Peer, error)         { return nil, nil }
-func (fakePeerManager) BroadcastMessage(context.Context, drpc.Message) error      { return nil }
-func (fakePeerManager) SendMessage(context.Context, string, drpc.Message) error   { return nil }
-func (fakePeerManager) KeepAlive(context.Context)                                 {}
+func (fakePeerManager) GetNodePeers(context.Context) ([]peer.Peer, error)       { return nil, nil }
+func (fakePeerManager) BroadcastMessage(context.Context, drpc.Message) error    { return nil }
+func (fakePeerManager) SendMessage(context.Context, string, drpc.Message) error { return nil }
+func (fakePeerManager) KeepAlive(context.Context)                               {}
 
 var _ peermanager.PeerManager = fakePeerManager{}
 
@@ -153,8 +153,8 @@ func (f *fakeSyncAcl) HandleResponse(context.Context, string, string, syncdeps.R
 	return errors.New("c15: acl sync not modelled")
 }
 func (f *fakeSyncAcl) ResponseCollector() syncdeps.ResponseCollector { return nil }
-func (f *fakeSyncAcl) SyncWithPeer(context.Context, peer.Peer) error  { return nil }
-func (f *fakeSyncAcl) SetAclUpdater(headupdater.AclUpdater)           {}
+func (f *fakeSyncAcl) SyncWithPeer(context.Context, peer.Peer) error { return nil }
+func (f *fakeSyncAcl) SetAclUpdater(headupdater.AclUpdater)          {}
 
 var _ syncacl.SyncAcl = (*fakeSyncAcl)(nil)
 
@@ -178,7 +178,9 @@ func (s *fakeSyncService) BroadcastMessage(ctx context.Context, msg drpc.Message
 func (s *fakeSyncService) HandleStreamRequest(context.Context, syncdeps.Request, drpc.Stream) error {
 	return errors.New("c15: not modelled")
 }
-func (s *fakeSyncService) HandleMessage(context.Context, drpc.Message) error { return errors.New("c15: not modelled") }
+func (s *fakeSyncService) HandleMessage(context.Context, drpc.Message) error {
+	return errors.New("c15: not modelled")
+}
 func (s *fakeSyncService) QueueRequest(ctx context.Context, rq syncdeps.Request) error {
 	s.d.net.Queued = append(s.d.net.Queued, rq.ObjectId())
 	return nil
@@ -334,11 +336,13 @@ func (s *settingsComp) Init(a *app.App) error {
 	s.obj = settings.NewSettingsObject(deps, d.f.spaceId)
 	return nil
 }
-func (s *settingsComp) Name() string                                   { return settings.CName }
-func (s *settingsComp) Run(ctx context.Context) error                  { return s.obj.Init(ctx) }
-func (s *settingsComp) Close(context.Context) error                    { return s.obj.Close() }
-func (s *settingsComp) DeleteTree(ctx context.Context, id string) error { return s.obj.DeleteObject(ctx, id) }
-func (s *settingsComp) SettingsObject() settings.SettingsObject        { return s.obj }
+func (s *settingsComp) Name() string                  { return settings.CName }
+func (s *settingsComp) Run(ctx context.Context) error { return s.obj.Init(ctx) }
+func (s *settingsComp) Close(context.Context) error   { return s.obj.Close() }
+func (s *settingsComp) DeleteTree(ctx context.Context, id string) error {
+	return s.obj.DeleteObject(ctx, id)
+}
+func (s *settingsComp) SettingsObject() settings.SettingsObject { return s.obj }
 
 // headObserver stands for diffSyncer.OnUpdate -> headUpdater (FIFO queue) -> DiffManager.UpdateHeads: head storage calls
 // observers inside its write transaction and UpdateHeads writes the space hash, so the calls have to be deferred; the
@@ -702,7 +706,9 @@ func (d *device) answer(ctx context.Context, rq syncdeps.Request, collector sync
 			return err
 		}
 		resp := collector.NewResponse()
-		setter, ok := resp.(interface{ SetProtoMessage(m protobuf.Message) error })
+		setter, ok := resp.(interface {
+			SetProtoMessage(m protobuf.Message) error
+		})
 		if !ok {
 			return fmt.Errorf("c15: response %T cannot be decoded", resp)
 		}
